@@ -223,7 +223,18 @@ fn run_store<S: Settings>(settings: S, sc: &StoreScenario) -> RunOutcome {
                 run_csv(&settings, sc, &h, &ops, &lens, &mut out);
             }
             Backend::ZarrSync => {
-                let fstore = Arc::new(FaultStore::new(sc.fail_write, false));
+                // in-memory store, or the real filesystem store on a per-run scratch directory (removed afterwards)
+                let fs_dir = crate::driver::verif_root().join(".scratch").join(format!("zarr-{:016x}-{:016x}-{}", sc.chain_seed, sc.ops_seed, sc.fail_write.map(|k| k as i64).unwrap_or(-1)));
+                let fstore = if sc.filesystem {
+                    let _ = std::fs::remove_dir_all(&fs_dir);
+                    if let Err(e) = std::fs::create_dir_all(&fs_dir) {
+                        crate::driver::harness_error(&format!("cannot create scratch directory {}: {e}", fs_dir.display()));
+                    }
+                    out.probe("filesystem_store_runs", 1);
+                    Arc::new(FaultStore::new_filesystem(&fs_dir, sc.fail_write).unwrap_or_else(|e| crate::driver::harness_error(&format!("filesystem store: {e}"))))
+                } else {
+                    Arc::new(FaultStore::new(sc.fail_write, false))
+                };
                 let cfg = nuts_rs::ZarrConfig::new(fstore.clone()).with_chunk_size(sc.chunk_size).store_warmup(sc.store_warmup);
                 let hh = &h;
                 let fs2 = fstore.clone();
@@ -237,7 +248,7 @@ fn run_store<S: Settings>(settings: S, sc: &StoreScenario) -> RunOutcome {
                             return;
                         }
                         flushed_ref.borrow_mut()[c] = done[c];
-                        let snap = snapshot_store(fs2.inner.as_ref());
+                        let snap = fs2.snapshot();
                         let upto = flushed_ref.borrow().clone();
                         let n_flush = { let mut k = flush_count_ref.borrow_mut(); *k += 1; *k };
                         // the flushed chain is checked at every flush; all earlier acknowledgements of all chains
@@ -269,7 +280,7 @@ fn run_store<S: Settings>(settings: S, sc: &StoreScenario) -> RunOutcome {
                     let upto = flushed.borrow().clone();
                     if upto.iter().any(|n| *n > 0) {
                         let acked: Vec<usize> = (0..upto.len()).filter(|c| upto[*c] > 0).collect();
-                        zarr_checks("zarr_sync", prop, "store after a failed write (acknowledged prefixes)", snapshot_store(fstore.inner.as_ref()), &h, &upto, Some(&acked), sc, false, &mut out);
+                        zarr_checks("zarr_sync", prop, "store after a failed write (acknowledged prefixes)", fstore.snapshot(), &h, &upto, Some(&acked), sc, false, &mut out);
                         out.probe("acknowledged_prefix_checked_after_write_fault", 1);
                     }
                 } else {
@@ -280,8 +291,11 @@ fn run_store<S: Settings>(settings: S, sc: &StoreScenario) -> RunOutcome {
                         }
                     }
                     if !bad && prop != "C13" {
-                        zarr_checks("zarr_sync", prop, "fresh reader after finalize", snapshot_store(fstore.inner.as_ref()), &h, &lens, None, sc, prop == "C14", &mut out);
+                        zarr_checks("zarr_sync", prop, "fresh reader after finalize", fstore.snapshot(), &h, &lens, None, sc, prop == "C14", &mut out);
                     }
+                }
+                if sc.filesystem {
+                    let _ = std::fs::remove_dir_all(&fs_dir);
                 }
             }
             Backend::ZarrAsync => {
